@@ -124,11 +124,11 @@ func (c *VConn) Close() error {
 	if g.Dead() {
 		return nil
 	}
+	g.Yield("close "+c.name, nil)
 	if c.closed {
 		return net.ErrClosed
 	}
 	c.closed = true
-	g.Yield("close "+c.name, nil)
 	return nil
 }
 
